@@ -640,7 +640,8 @@ func (v Value) Equals(b Value) bool {
 	case (v.t & TypeFloat64) > 0:
 		return v.num == b.num
 	case v.t == TypeString:
-		return v.value.(stringT) == b.value.(stringT)
+		bs, ok := b.value.(stringT) // a string held by an any may meet nil or a value of another type
+		return ok && b.t == TypeString && v.value.(stringT) == bs
 	case v.t.base() == TypeStruct, v.t == TypeFunc:
 		return (b.t == TypeNil && v.value == nil) || v.value == b.value
 	case v.t == TypeNil && b.t == TypeNil:
